@@ -966,6 +966,40 @@ def _existence_checks(ctx, f):
             if t.startswith("self."):
                 kind = ast.unparse(n.func)
                 checked.add((t[5:], kind))
+    # table-driven form: for group in (self.a_columns, [self.b_column], ...):
+    #   for column in group: if column and column not in FILE: raise
+    fT = Terms(DefUse(ctx.prog, f))
+    fcfg = CFG(f.node)
+    table_form = False
+    for r in [n for n in walk_own(f.node) if isinstance(n, ast.Raise)]:
+        for t, o in cond_terms(fcfg, fT, r):
+            parts = list(t[2]) if t[0] == "bool" and t[1] == "and" and o \
+                else [t]
+            for c in parts:
+                if o and c[0] == "cmp" and c[1] == "not in" and \
+                        c[2][0] == "elem" and c[2][1][0] == "elem" and \
+                        c[2][1][1][0] in ("tuple", "list") and any(
+                            isinstance(x, tuple) and x[:1] == ("mcall",)
+                            and x[2] == "get_column_names"
+                            for x in walk_term(c[3])):
+                    table_form = True
+                    stored = {}
+                    for (r_, a_, v_, _st) in DefUse(ctx.prog, f).attr_stores:
+                        if r_ == "self":
+                            stored.setdefault(fT.of(v_), set()).add(a_)
+
+                    def role_of(x):
+                        if x[0] == "attr" and x[1] == ("param", "self"):
+                            return {x[2]}
+                        return stored.get(x, set())
+
+                    for item in c[2][1][1][1]:
+                        if item[0] == "list" and len(item[1]) == 1:
+                            for a_ in role_of(item[1][0]):
+                                checked.add((a_, "check_column"))
+                        else:
+                            for a_ in role_of(item):
+                                checked.add((a_, "check_columns"))
     n_ok = 0
     for a in roles:
         plural = a.endswith("columns")
@@ -979,6 +1013,10 @@ def _existence_checks(ctx, f):
                   node=f.node)
     ctx.floor("C10e-roles", len(roles), 15)
     cc = f.nested.get("check_column")
+    if cc is None and table_form:
+        ctx.ok("C10e-check-raises", f, "table-driven existence check "
+               "raises for a named column that is not in the file")
+        return
     ctx.require(cc is not None, f"{f.qual}: check_column helper not found")
     cfg = CFG(cc.node)
     raises = [n for n in ast.walk(cc.node) if isinstance(n, ast.Raise)]
